@@ -40,11 +40,11 @@ theorem cmdDocA_shape (c : Ctx) (h : c.rfn = false) (v : J) (hn : v.nodup = true
     · exact h1
   | _ => simp [Ctx.cmdDocA, shapeEq_refl]
 
-theorem redactAttrA_shape (T : Tables) (cfg : Cfg) (plan : Str → Str → Str) (g : Bool) (heager : cfg.eager = [])
+theorem redactAttrA_shape (T : Tables) (cfg : Cfg) (plan : Str → Str → Str) (g : Bool)
     (attr : List (Str × J)) (hn : nodupKVs attr = true) :
-    shapeEqKVs attr (redactAttrA T cfg plan g attr) = true := by
+    shapeEqKVs attr (redactAttrA T cfg [] plan g attr) = true := by
   unfold redactAttrA redactAttrWith
-  simp only [heager, List.any_nil]
+  simp only [List.any_nil]
   -- step 1: remote
   have s1 : ∀ a, nodupKVs a = true → shapeEqKVs a
       (if cfg.ips then mapKey sRemote (fun v => match v with | .str _ => .str T.ipPH | x => x) a else a) = true := by
@@ -86,9 +86,9 @@ theorem redactAttrA_shape (T : Tables) (cfg : Cfg) (plan : Str → Str → Str) 
 
 /-- **C03 (tree level)**: with field-name redaction off, `RedactMongoLog` preserves the shape
     of every line that has no duplicate sibling keys. -/
-theorem C03_line (T : Tables) (cfg : Cfg) (plan : Str → Str → Str) (heager : cfg.eager = [])
+theorem C03_line (T : Tables) (cfg : Cfg) (plan : Str → Str → Str)
     (entry : List (Str × J)) (hn : (J.obj entry).nodup = true) :
-    shapeEq (.obj entry) (.obj (redactLine T cfg plan entry)) = true := by
+    shapeEq (.obj entry) (.obj (redactLine T cfg [] plan entry)) = true := by
   rw [← redactLine_refine]
   simp only [J.nodup, Bool.and_eq_true] at hn
   simp only [shapeEq, redactLineA, redactLineWith]
@@ -99,7 +99,7 @@ theorem C03_line (T : Tables) (cfg : Cfg) (plan : Str → Str → Str) (heager :
     | obj attr =>
       simp only [J.nodup, Bool.and_eq_true] at hv
       simp only [shapeEq]
-      exact redactAttrA_shape T cfg plan (gated entry) heager attr hv.2
+      exact redactAttrA_shape T cfg plan (gated entry) attr hv.2
     | _ => simp [shapeEq_refl]
   · exact shapeEqKVs_refl entry
 
